@@ -88,6 +88,13 @@ class Sandbox:
         return c, l, k
 
 
+def read_whole(sb, rel):
+    """the same reader on the whole file (no 4 KiB window): for headers that have outgrown the window"""
+    from reuse.extract import extract_reuse_info
+    info = extract_reuse_info(sb.read(rel).decode("utf-8", "replace").replace("\r\n", "\n"))
+    return set(info.copyright_lines), {str(e) for e in info.spdx_expressions}, set(info.contributor_lines)
+
+
 def this_year():
     return str(datetime.date.today().year)
 
@@ -437,6 +444,9 @@ FIXED_HISTORIES = [[1, 11], [10, 13], [10, 12], [2, 12, 11], [10, 13, 12]]
 STARTS = {
     "empty": "", "code": "x = 1  BODY1\n",
     "foreign header": "# Copyright (C) 1999 Legacy Corp\n# SPDX-License-Identifier: Apache-2.0\n# SPDX-FileContributor: Zed\n\ny = 2 BODY1\n",
+    # a header longer than the reader's 4 KiB window (as accumulated by many earlier runs)
+    "long header": "".join(f"# SPDX-FileCopyrightText: 20{i % 25:02d} Holder Number {i:03d} <holder{i:03d}@example.com>\n" for i in range(75))
+                   + "#\n# SPDX-License-Identifier: ISC\n\nz = 3 BODY1\n",
 }
 
 
@@ -462,14 +472,15 @@ def accumulation(tier):
         for sname, start in STARTS.items():
             if fname == "g.c":
                 start = start.replace("# ", "// ").replace("#\n", "//\n")
-            for seq in [tuple(h) for h in FIXED_HISTORIES] + list(seqs):
+            for seq in [tuple(h) for h in FIXED_HISTORIES] + (list(seqs) if sname != "long header" else [(0,), (2,), (3,)]):
                 if not multi_ok and any(STEPS[i][1].get("multi") for i in seq):
                     continue
                 cases += 1
                 with Sandbox({fname: start, **TEMPLATES}) as sb:
                     history = []
+                    reader = (lambda name, _sb=sb: read_whole(_sb, name)) if sname == "long header" else sb.read_back
                     try:
-                        c, l, k = sb.read_back(fname)
+                        c, l, k = reader(fname)
                     except Exception:  # noqa
                         c, l, k = set(), set(), set()
                     for i in seq:
@@ -482,7 +493,7 @@ def accumulation(tier):
                             break
                         if code != 0:
                             continue
-                        c1, l1, k1 = sb.read_back(fname)
+                        c1, l1, k1 = reader(fname)
                         if flags.get("skip") and "Skipped" in out:
                             rc = rl = rk = set()
                         else:
